@@ -1,5 +1,6 @@
 import MokapotVerif.Model.Brew
 import MokapotVerif.Model.Confidence
+import MokapotVerif.Model.Tabular
 /-!
 # Chunked paths of the pipeline that C05 quantifies over and no other model contains
 
@@ -176,5 +177,151 @@ def resultFilesSpec (levels : List Row × List (List Row)) (pep : List Row → L
     List (List (Row × Rat × Rat) × List (Row × Rat × Rat)) :=
   (levels.1 :: levels.2).map
     (fun rows => writeWhole rows (levelQvalues rows) (pep rows) (rows.map (fun r => r.target)))
+
+/-! ## 4. the chunk streams as the readers deliver them (second pass, `GAPS-C05.md`)
+
+Every zip of the pipeline (`zip(file_iterator, scores_slices, …)` confidence.py:818-832,
+`psms_slice["fold"] = model_test_idx.pop(0)` brew.py:421-428, the four streams of
+`write_confidences`) silently presumes that the `k`-th chunk of the reader has as many rows as the
+`k`-th slice of `create_chunks(array, c)`, and `_predict` / `get_rows_from_dataframe` presume that
+the rows of a chunk carry their *global* row numbers as index labels (`df.index + offset`,
+tabular_data.py:306-316; `pd.read_csv(chunksize=…)` continues its `RangeIndex`).  The models
+`Mk.Brew.predict` and `chunkPiece` take chunks of already labelled rows; here the stream is the one
+the reader model of C13 delivers (`Tabular.pqLabel`). -/
+
+/-- what one `reader.get_chunked_data_iterator(c)` over a file of `n` rows delivers, as far as the
+zips depend on it: per chunk the index label of its first row and its number of rows
+(src: tabular_data.py:226-235 text, 306-316 Parquet) -/
+def chunkSpans (c n : Nat) : List (Nat × Nat) :=
+  (Tabular.pqLabel 0 (chunksOf c (List.replicate n ()))).map
+    (fun b => ((b.map (fun p => p.1)).headD 0, b.length))
+
+/-- **Specification** of the stream profile: `⌈n/c⌉` chunks, chunk `k` starts at label `k·c` and
+holds `min c (n − k·c)` rows (so every chunk but the last is full and none is empty) -/
+def chunkSpansSpec (c n : Nat) : List (Nat × Nat) :=
+  (List.range ((n + c - 1) / c)).map (fun k => (k * c, min c (n - k * c)))
+
+/-- body of `_predict` for one file on a given stream of chunks whose rows are
+`((index label, row), fold)`: identical to the body of `Mk.Brew.predict` (brew.py:415-476) -/
+def predictOn {ρ σ : Type} [Inhabited σ] (chs : List (List ((Nat × ρ) × Nat))) (nfolds n : Nat)
+    (score : Nat → ρ → σ) (target : ρ → Bool) (cal : List (σ × Bool) → σ → σ) : List σ :=
+  let perFold := (List.range nfolds).map (fun f =>
+    let rs := foldRows f chs
+    let raw := rs.map (fun x => score f x.2)
+    let g := cal (raw.zip (rs.map (fun x => target x.2)))
+    (rs.map (·.1)).zip (raw.map g))
+  let all := perFold.flatten
+  (List.range n).map (fun p => (all.lookup p).getD default)
+
+/-- `_predict` fed by the reader: the `k`-th chunk of the file (labels as the reader sets them:
+local labels plus the running offset) receives the `k`-th slice of
+`create_chunks(mod_idx, CHUNK_SIZE_ROWS_PREDICTION)` as its `fold` column (brew.py:417-428) -/
+def predictStream {ρ σ : Type} [Inhabited σ] (c nfolds : Nat) (rows : List ρ) (routing : List Nat)
+    (score : Nat → ρ → σ) (target : ρ → Bool) (cal : List (σ × Bool) → σ → σ) : List σ :=
+  predictOn (List.zipWith List.zip (Tabular.pqLabel 0 (chunks c rows)) (chunks c routing))
+    nfolds rows.length score target cal
+
+/-- the pieces `get_rows_from_dataframe` cuts out of the reader's chunks for one training index
+(`chunk.loc[list(set(train) & set(chunk.index))]`, pin.py:344-346), chunk after chunk -/
+def streamPieces {ρ : Type} (c : Nat) (rows : List ρ) (train : List Nat) : List (List (Nat × ρ)) :=
+  (Tabular.pqLabel 0 (chunks c rows)).map (chunkPiece train)
+
+/-! ## 5. the keys of the streaming scan as a text input delivers them
+
+`create_sorted_file_iterator` reads the metadata with `pd.read_csv(chunksize=c)`, which infers
+the dtype of a column *per chunk*: `object` (strings) when some cell of the chunk is not a number,
+else `float64` when some cell is spelled with a fraction / exponent or is empty, else `int64`.  The
+chunk is written to its temporary file with that dtype (`'17'`, `500.0` or `500`) and read back by
+the merge, so the value a row carries into the scan has the dtype of the chunk the row came
+through.  The scan remembers an entity (spectrum, or the value of a roll-up level column) under
+`_entity_key([data_row.get(col) …])` (confidence.py:752-761, 824-848): booleans by name, numbers
+as `float`, *text made of digits, sign, point and exponent (`_PLAIN_NUMBER`) as that number*, every
+other text as it is — the key is the canonical value of the cell whatever the dtype of its chunk.
+
+History (all found by the second pass of C05, all kept as refuted variants): until commit 5233470
+the key was `str([...])` of the values as they came (`'[1, 500]'` ≠ `'[1, 500.0]'`, `strKey`);
+5233470 turned numbers into floats but left text alone (`"['17']"` from a chunk holding `17_b`
+≠ `'[17.0]'` from an all-numeric chunk, `numKey`); 0d68f96 keyed *every* text that `float()`
+accepts as that number, which merges the peptides `INF` and `INFINITY` (`floatTextKey`); afa88c6
+restricts that to plain numbers: `canonKey`.
+
+A cell is abstracted to a value id `v` (equal ids = equal canonical values), whether the value is
+text that is not a plain number (`isText v`, a property of the value), and for numbers the spelling
+of this cell (`frac`: with a fraction / exponent).  Cell classes: 0 integer spelling, 1 fraction
+spelling, 2 text.  Dtypes: 0 `int64`, 1 `float64`, 2 `object`.  A Parquet column is typed by the
+schema: all chunks have one dtype. -/
+
+/-- which key column: `none` = the spectrum key, `some l` = the roll-up level `l` -/
+abbrev KeyCol := Option Nat
+
+def getKeyAt (w : KeyCol) (r : Row) : Nat := w.elim r.spec (fun l => r.key l)
+
+/-- set the key of level `l` (rows of a table with that level are long enough: the padding is for
+totality only, so that `(setLevelKey l x r).key l = x` for every row) -/
+def setLevelKey (l x : Nat) (r : Row) : Row :=
+  { r with keys := (r.keys ++ List.replicate (l + 1 - r.keys.length) 0).set l x }
+
+def setKeyAt (w : KeyCol) (x : Nat) (r : Row) : Row :=
+  w.elim { r with spec := x } (fun l => setLevelKey l x r)
+
+/-- apply `g` to the key in column `w` -/
+def mapKeyAt (w : KeyCol) (g : Nat → Nat) (r : Row) : Row := setKeyAt w (g (getKeyAt w r)) r
+
+def cellClass (isText : Nat → Bool) (f : Bool) (v : Nat) : Nat := if isText v then 2 else f.toNat
+
+/-- class of the cell of every row in column `w` -/
+def classesAt (w : KeyCol) (isText : Nat → Bool) (frac : List Bool) (md : List Row) : List Nat :=
+  List.zipWith (fun f r => cellClass isText f (getKeyAt w r)) frac md
+
+/-- dtype under which every row's cell travels: that of its own chunk = the widest class in it -/
+def chunkDtypes (c : Nat) (cls : List Nat) : List Nat :=
+  (chunksOf c cls).flatMap (fun ch => List.replicate ch.length (ch.foldl max 0))
+
+/-- `str([...])` of the value as it arrives (until 5233470): dtype `d` of the chunk, and in an
+`object` chunk the text of the cell (class `k`); encoded injectively -/
+def strKey (d k v : Nat) : Nat := if d = 2 then 9 * v + 6 + k else 9 * v + 3 * d
+
+/-- numbers as `float`, text as it is (5233470 only) -/
+def numKey (d k v : Nat) : Nat := if d = 2 then 9 * v + 6 + k else 9 * v + 3
+
+/-- `_entity_key` (0d68f96 + afa88c6): numbers and text that is a plain number ↦ the number as
+`float`, other text as it is — no dependence on the dtype of the chunk -/
+def canonKey (_d k v : Nat) : Nat := if k = 2 then 9 * v + 8 else 9 * v + 3
+
+/-- 0d68f96 alone (until afa88c6): every text that `float()` accepts is keyed as that number — also
+`INF`, `INFINITY`, `NAN` in any letter case, which are peptides.  `floatOf v` = id of the number
+`float()` reads from the text `v`, if it reads one -/
+def floatTextKey (floatOf : Nat → Option Nat) (_d k v : Nat) : Nat :=
+  if k = 2 then (floatOf v).elim (9 * v + 8) (fun n => 9 * n + 3) else 9 * v + 3
+
+/-- the canonical key as a function of the value alone -/
+def canonOf (isText : Nat → Bool) (v : Nat) : Nat := if isText v then 9 * v + 8 else 9 * v + 3
+
+/-- every row re-keyed in column `w` with what the scan's seen-set receives for it -/
+def rekeyAt (w : KeyCol) (key : Nat → Nat → Nat → Nat) (ds cls : List Nat) (md : List Row) : List Row :=
+  List.zipWith (fun dk r => setKeyAt w (key dk.1 dk.2 (getKeyAt w r)) r) (ds.zip cls) md
+
+/-- the table as the scan of the chunked text path sees it (one key column with mixed spellings) -/
+def keyedRows (key : Nat → Nat → Nat → Nat) (c : Nat) (w : KeyCol) (isText : Nat → Bool) (frac : List Bool)
+    (md : List Row) : List Row :=
+  rekeyAt w key (chunkDtypes c (classesAt w isText frac md)) (classesAt w isText frac md) md
+
+/-- result files of a text input whose key column `w` has the cells described by `isText`, `frac` -/
+def keyedFiles (c : Nat) (dedup : Bool) (nLevels : Nat) (pep : List Row → List Rat) (w : KeyCol)
+    (isText : Nat → Bool) (frac : List Bool) (md : List Row) (sc : List Int) :
+    List (List (Row × Rat × Rat) × List (Row × Rat × Rat)) :=
+  resultFiles c dedup nLevels pep (keyedRows canonKey c w isText frac md) sc
+
+/-- **Specification**: every entity keyed by its canonical value — no chunk, no dtype, no spelling -/
+def keyedFilesSpec (c : Nat) (dedup : Bool) (nLevels : Nat) (pep : List Row → List Rat) (w : KeyCol)
+    (isText : Nat → Bool) (md : List Row) (sc : List Int) :
+    List (List (Row × Rat × Rat) × List (Row × Rat × Rat)) :=
+  resultFiles c dedup nLevels pep (md.map (mapKeyAt w (canonOf isText))) sc
+
+/-- the two earlier behaviours (refuted variants; used by the harness to say what a disagreement is) -/
+def oldKeyedFiles (key : Nat → Nat → Nat → Nat) (c : Nat) (dedup : Bool) (nLevels : Nat)
+    (pep : List Row → List Rat) (w : KeyCol) (isText : Nat → Bool) (frac : List Bool) (md : List Row)
+    (sc : List Int) : List (List (Row × Rat × Rat) × List (Row × Rat × Rat)) :=
+  resultFiles c dedup nLevels pep (keyedRows key c w isText frac md) sc
 
 end Mk.Cross
